@@ -36,13 +36,18 @@ def run(tier, seed, scale=1.0):
                                       "directory at link time (--wrap=inotify_add_watch)"])
 
 
+def replay(path):
+    """Not called by bin/check yet (it uses common.replay, whose generic keyer cannot read gcc-TSan stacks)."""
+    return et.replay(PROP, path)
+
+
 def stress_opts():
     """Workload switches tied to open known findings (they disappear with the entry)."""
-    known = vdriver.Known()
     opts = {}
-    ids = {e.get("id") for e in known.entries if e.get("status") == "open"}
-    if "C07-et-idle-conn-no-wake" in ids:
-        # a query on an idle kept-open connection is never timed out: with STAYOPEN every stress run would
-        # end in that finding's hang; the timers profile (C07) is the dedicated workload for it
-        opts["stayopen"] = 0
+    for e in vdriver.Known().entries:
+        if e.get("status") == "open" and any(k.startswith("timer:et:missed-deadline:idle-kept-open-conn")
+                                              for k in e.get("keys", [])):
+            # while "a query on an idle kept-open connection is never timed out" is open, every STAYOPEN stress
+            # run would end in that (C07) finding's missed deadline; the timers profile is its dedicated workload
+            opts["stayopen"] = 0
     return opts
